@@ -177,6 +177,25 @@ def explore_c07(ctx, res, replay_ops=None):
         if t[1] == "set":
             cur[(t[2], t[3])] = t[4]
             continue
+        if t[1] == "conc":
+            # reservations for ONE account on several connections at once: every grant lowers the balance by exactly the grant
+            res.evaluations += 1
+            res.traces_validated += 1
+            res.nontrivial.add(op)
+            res.dist["concurrent:%s-connections" % t[5]] += 1
+            d = dict(x.split("=", 1) for x in im.split(" ") if "=" in x)
+            if im.split(" ")[0] != "conc":
+                res.violation("oracle", "C07: the account-balance server %s while %s connections sent reservations for one account" % (
+                    im.split(" ")[0], t[5]), [op, "# impl: " + im[:300]])
+            elif d.get("granted") != d.get("spent") or int(d.get("spent", "0")) > int(t[4]):
+                res.violation("oracle", "C07: %s connections x %s reservations of %s for one account (balance %s): %s units granted in %s answers, "
+                              "the stored balance went down by %s" % (t[5], t[6], t[7], t[4], d.get("granted"), d.get("answers"), d.get("spent")),
+                              [op, "# impl:  " + im[:300], "# model: " + mo[:300]])
+            elif im != mo:
+                res.disagreements += 1
+                res.violation("correspondence", "abmf: model and implementation differ", [op, "# impl:  " + im, "# model: " + mo], found_input=False)
+            absorb(im.split(" ")[-1] if im.split(" ")[0] == "conc" else render())
+            continue
         before = render()
         res.evaluations += 1
         rsu, usu = int(t[9]), int(t[10])
@@ -228,8 +247,9 @@ def _history(ops, i):
     return ops[j:i + 1]
 
 
-PROPS["C07"] = dict(lean=["ChfVerif.Props.C07"], explore=explore_c07,
-                    trusted=["go-diameter (transport, AVP codec, panic recovery) and strconv.ParseInt/FormatInt are "
+PROPS["C07"] = dict(lean=["ChfVerif.Props.C07"], explore=explore_c07, gen=[_gen_late("abmfserver", "AbmfServer.lean")],
+                    trusted=["the go/ast extractor harness/cmd/abmfserverfacts.go (per-account lock around the store read and write of handleCCR)",
+                             "go-diameter (transport, AVP codec, panic recovery) and strconv.ParseInt/FormatInt are "
                              "modelled; MongoDB replaced by an in-memory store behind RestfulAPIGetOne/PutOne"])
 
 
